@@ -330,6 +330,16 @@ def run(ctx):
                 resp.media = {'stale': 'rendered'}
                 if not asgi:
                     resp.render_body()
+                else:
+                    # the call site is synchronous here; the stock JSON handler never suspends, so
+                    # the coroutine is simply run to its end (equivalent to `await resp.render_body()`)
+                    coro = resp.render_body()
+                    try:
+                        coro.send(None)
+                    except StopIteration:
+                        pass
+                    else:
+                        coro.close()
             else:
                 resp.data = b'stale data'
             if stale_stream:
